@@ -268,7 +268,18 @@ impl Ctx {
         }
         let edit = d["edit"].as_str().unwrap_or("none");
         let shipped = self.wrapper(d, "none");
-        let signed_over = self.wrapper(d, edit);
+        let mut signed_over = self.wrapper(d, edit);
+        // a layout whose text spells `expires` in another notation is signed the way its owner would
+        // sign it with this library: parse the notated text, sign what was parsed
+        let fmt = d["fmt"].as_str().unwrap_or("Z");
+        if d["typ"] == "layout" && fmt != "Z" && edit == "none" {
+            let mut v = serde_json::to_value(&shipped).unwrap();
+            let inst = t0() + Duration::seconds(d["expires"].as_i64().unwrap());
+            v["expires"] = json!(spell_instant(inst, fmt));
+            if let Ok(parsed) = serde_json::from_str::<MetadataWrapper>(&v.to_string()) {
+                signed_over = parsed;
+            }
+        }
         if edit != "none" {
             assert!(shipped != signed_over, "edit {edit} must change the content");
         }
